@@ -5,6 +5,14 @@ ENGINES = [
      "serves_properties": ["C13", "C14"],
      "kind_free_text": "TLA+ model of the in-place file protocol (one step per libc file operation, kills, errno faults, user edits); TLC BFS for the design, TLC-generated histories replayed under strace with kill/errno injection at every file syscall, observed runs explained and judged by a TLC trace specification"},
 ]
+ENGINES += [
+    {"name": "driver", "path": "spec/DriverCore.tla spec/Driver.tla spec/DriverTrace.tla vlib/driver.py vlib/checks/driver_engine.py",
+     "serves_properties": ["C10", "C12"],
+     "kind_free_text": "TLA+ model of main()'s mode selection, legality rules and the per-file check / if-changed / write protocol; TLC enumerates every sensible command line x file-class sequence with the predicted outcome, the harness executes each and a TLC trace specification judges the observed outcome"},
+    {"name": "batch", "path": "spec/BatchCore.tla spec/Batch.tla spec/BatchTrace.tla vlib/checks/c11.py",
+     "serves_properties": ["C11"],
+     "kind_free_text": "TLA+ model of the cross-file state of one process (which step dirties / cleans which global); TLC checks CleanStart for all class sequences; real batches are compared with single runs and their FileStart hook projections judged by the trace specification"},
+]
 CHECKS = [
     {"id": "C13", "engine": "inplace", "level": "fault_enumeration",
      "text": "Every kill point (before each file-related syscall of the run) and every errno fault on open/write/close/rename/mkdir (pairs in thorough) is enumerated on the real binary for every scenario class TLC generates (prior state x mode x input kind), and each observed outcome is decided by the TLC trace specification; the design itself is model-checked exhaustively (kills, <=2 faults, histories <=4).",
@@ -14,6 +22,20 @@ CHECKS = [
      "text": "TLC checks all histories (user writes, --replace with two configs, kills, one fault) up to 7/8 steps on the model; every injection-free history up to 3/4 steps and a seeded set of histories with a run killed at every file syscall are replayed on the binary and validated step by step by the trace specification.",
      "design_ref": "DESIGN.md 4/C14", "technique": TLA + " (InPlace.tla histories)",
      "note": "md5-indistinguishable user writes are outside the universe; --replace runs only"},
+]
+CHECKS += [
+    {"id": "C10", "engine": "driver", "level": "model_checking",
+     "text": "The mode lattice (source x in-place x destination x language source x -p/csv/-q, legal and illegal) is model-checked exhaustively; every generated command line is executed with corpus files of all languages, random observer options and environments, and the delivered bytes/locations are judged against the reference run by the trace specification.",
+     "design_ref": "DESIGN.md 4/C10", "technique": TLA + " (Driver.tla mode lattice)",
+     "note": "reference bytes come from the same binary (mode -f to stdout); observers/environment are sampled by seed, not enumerated; valgrind is not used"},
+    {"id": "C11", "engine": "batch", "level": "model_checking",
+     "text": "Batch.tla is checked for all class sequences <=3 with and without -l (and the as-built variant is shown to violate CleanStart); on the binary all ordered pairs of class representatives plus seeded corpus sequences are run as batch and compared with single runs, with FileStart projections of the cross-file globals.",
+     "design_ref": "DESIGN.md 4/C11", "technique": TLA + " (Batch.tla cross-file state)",
+     "note": "sequences longer than 4 files and statics that are not projected by the hook are only seen through output differences"},
+    {"id": "C12", "engine": "driver", "level": "model_checking",
+     "text": "Every --check / --if-changed command line x every sequence (<=2 quick, <=3 thorough) over six file classes is enumerated by TLC with the predicted exit status, reports and file-system delta, executed on the binary with a directory snapshot before/after, and judged by the trace specification.",
+     "design_ref": "DESIGN.md 4/C12", "technique": TLA + " (Driver.tla check/if-changed protocol)",
+     "note": "file classes are established from reference bytes of the same binary; 'touched' includes mtime"},
 ]
 _PENDING = "check not built yet in this commit (specification module planned in DESIGN.md 3.1); will be claimed when its check is quiet on the unchanged tree"
 NOT_APPLICABLE = [{"property_id": "C%02d" % i, "reason": _PENDING} for i in range(1, 21) if "C%02d" % i not in {c["id"] for c in CHECKS}]
